@@ -310,9 +310,11 @@ def LBuf.underlying (m : Mem) (l : LBuf) : List Nat :=
   | none => l.sl.flatMap (fun s => ((s.bytes m).drop s.ri).take s.size)
   | some wi => (l.sl.take (wi + 1)).flatMap (fun s => ((s.bytes m).drop s.ri).take s.size)
 
-/-- linkedBuffer.recycle : every slice back (shared-memory ones to the allocator), then clean -/
+/-- linkedBuffer.recycle : parked and listed slices back (shared-memory ones to the allocator), then clean -/
 def LBuf.recycle (m : Mem) (l : LBuf) : Mem × LBuf :=
-  (l.sl.foldl (fun m s => m.recycle s) m, { pinned := l.pinned })
+  -- (repaired code) cleanPinnedList first: parked slices go back too
+  let m1 := l.pinned.foldl (fun m s => m.recycle s) m
+  (l.sl.foldl (fun m s => m.recycle s) m1, {})
 
 /-- linkedBuffer.clean -/
 def LBuf.clean (l : LBuf) : LBuf := { pinned := l.pinned }
